@@ -40,4 +40,13 @@ theorem search_glue :
       "IterateSortedRecords: range db.index", "IterateSortedRecords: if recordID != \"\"",
       "IterateSortedRecords: sort.Strings(recordIDs)", "IterateSortedRecords: range recordIDs"] := ⟨rfl, rfl, rfl, rfl⟩
 
+/-- what each document operation does to the index, in source order (`Lemmas/LshRun.istep`): an
+    overwrite takes the old point out by the vector `getDocument` returns before the record is written,
+    the new point goes in after the write, routed by the vector as stored; a removal takes the point out
+    before the record is removed; a metadata update makes no index call -/
+theorem index_glue : Facts.indexGlue = some
+    ["AddDocument: getDocument; removePoint(id, old.Vector); WriteRecord; addPoint(id, decodeVector(encodedVector, c.DimensionCount, c.Quantization))",
+     "UpdateDocument: ReadRecord; WriteRecord",
+     "removeDocument: getDocument; removePoint(id, doc.Vector); RemoveRecord"] := rfl
+
 end Syzgy.Tie.Search
